@@ -33,29 +33,29 @@ macro "tie_auto" : tactic => `(tactic| first
 
 theorem CalculateArithmeticShift_eq (i s : Int) : Gen.CalculateArithmeticShift i s = arithShift i s := by
   unfold Gen.CalculateArithmeticShift arithShift
-  (try simp only [Id.run, id_pure]) <;> tie_auto
+  (try simp only [Id.run, id_pure, gen_helper]) <;> tie_auto
 
 theorem CheckZoom_eq (z : Int) : Gen.CheckZoom z = checkZoom z := by
   unfold Gen.CheckZoom checkZoom
   first
   | (simp [Id.run, id_pure, Bool.decide_and]; done)
-  | ((try simp only [Id.run, id_pure]) <;> tie_auto)
+  | ((try simp only [Id.run, id_pure, gen_helper]) <;> tie_auto)
 
 theorem quadkeyCheckZoom_eq (h v : Int) : Gen.quadkeyCheckZoom h v = qkCheckZoom h v := by
   unfold Gen.quadkeyCheckZoom qkCheckZoom
   first
   | (simp [Id.run, id_pure, Bool.decide_and]; done)
-  | ((try simp only [Id.run, id_pure]) <;> tie_auto)
+  | ((try simp only [Id.run, id_pure, gen_helper]) <;> tie_auto)
 
 theorem extendedSpatialIDCheckZoom_eq (h v : Int) : Gen.extendedSpatialIDCheckZoom h v = extCheckZoom h v := by
   unfold Gen.extendedSpatialIDCheckZoom extCheckZoom
   first
   | (simp [Id.run, id_pure, Bool.decide_and]; done)
-  | ((try simp only [Id.run, id_pure]) <;> tie_auto)
+  | ((try simp only [Id.run, id_pure, gen_helper]) <;> tie_auto)
 
 theorem validateIndexExists_eq (i z : Int) (neg : Bool) : Gen.validateIndexExists i z neg = validateIndex i z neg := by
   unfold Gen.validateIndexExists validateIndex
-  simp only [Id.run, id_pure, CalculateArithmeticShift_eq]
+  simp only [Id.run, id_pure, gen_helper, CalculateArithmeticShift_eq]
   cases neg <;> simp only [Bool.false_eq_true, if_true, if_false, id_pure] <;> tie_auto
 
 end SpatialId.Tie
